@@ -4,8 +4,8 @@ from gen_util import *
 from srp_cases import *
 import pyref
 
-MODULES = ["WowSrp.Props.C02", "WowSrp.Props.C02Password", "WowSrp.Props.Source.C02", "WowSrp.Props.Source.Structural.C02", "WowSrp.Props.Source.Glue.Srp", "WowSrp.Props.Source.Shape.C02", "WowSrp.Props.Source.HashesSrp", "WowSrp.Props.Source.ApiIntoServer", "WowSrp.Props.Source.ApiClient"]
-THEOREMS = ["C02_server_eq", "C02_server_iff", "C02_server_error", "C02_server_panic", "C02_client_eq", "C02_client_iff", "C02_client_error", "C02_M1_layout", "C02_client_M1", "C02_changed_bit_refused", "C02_flipped_M1_refused", "C02_changed_bit_refused_M2", "C02_flipped_M2_refused", "C02_changed_field_gives_collision", "C02_changed_username_gives_collision", "C02_changed_field_accepted_gives_collision", "C02_wrong_password_partial", "C02_source_whole_array_equality", "C02_source_layout_M1", "C02_source_structural_impls", "C02_source_glue_srp", "C02_accepted_text_inj", "C02_x_collision", "C02_residual_is_congruence", "C02_wrong_password_three_way_of_text", "C02_wrong_password_three_way", "C02_interleave_collision", "C02_session_key_collision", "C02_wrong_username_collision", "C02_wrong_username_three_way", "C02_source_shapes", "C02_translated_client_proof", "C02_translated_server_proof", "C02_translated_calculate_x", "C02_translated_into_server", "C02_translated_verify_server_proof"]
+MODULES = ["WowSrp.Props.C02", "WowSrp.Props.C02Password", "WowSrp.Props.Source.C02", "WowSrp.Props.Source.Structural.C02", "WowSrp.Props.Source.Glue.Srp", "WowSrp.Props.Source.Shape.C02", "WowSrp.Props.Source.HashesSrp", "WowSrp.Props.Source.ApiIntoServer", "WowSrp.Props.Source.ApiClient", "WowSrp.Props.Source.C13Ctors"]
+THEOREMS = ["C02_server_eq", "C02_server_iff", "C02_server_error", "C02_server_panic", "C02_client_eq", "C02_client_iff", "C02_client_error", "C02_M1_layout", "C02_client_M1", "C02_changed_bit_refused", "C02_flipped_M1_refused", "C02_changed_bit_refused_M2", "C02_flipped_M2_refused", "C02_changed_field_gives_collision", "C02_changed_username_gives_collision", "C02_changed_field_accepted_gives_collision", "C02_wrong_password_partial", "C02_source_whole_array_equality", "C02_source_layout_M1", "C02_source_structural_impls", "C02_source_glue_srp", "C02_accepted_text_inj", "C02_x_collision", "C02_residual_is_congruence", "C02_wrong_password_three_way_of_text", "C02_wrong_password_three_way", "C02_interleave_collision", "C02_session_key_collision", "C02_wrong_username_collision", "C02_wrong_username_three_way", "C02_source_shapes", "C02_translated_client_proof", "C02_translated_server_proof", "C02_translated_calculate_x", "C02_translated_into_server", "C02_translated_verify_server_proof", "C13_source_constructors_delegate"]
 RULE = ("per baseline session (shared injected salt, a, b): all 160 single-bit changes of M1 and of M2, every single-bit change of A, "
         "of B and of the salt (3 x 256), other passwords / usernames including case-only variants (which must succeed), prefixes, "
         "suffixes; decision and both error fields recomputed independently. distinct = distinct lines; non-trivial = perturbed cases")
@@ -141,6 +141,11 @@ def generate(rng, tier):
             for uc, pc in ((us, ps.replace("s", "\u017f")), (us.replace("i", "\u0131"), ps), (us, ps.replace("ss", "\u00df")), (us.replace("fi", "\ufb01"), ps), (us, ps.replace("k", "\u212a"))):
                 if (uc, pc) != (us, ps):
                     cs.append(Case(login_line(us, ps, uc, pc, 10 * ctor, salt, b, a, chal), "unicode-lookalike-credentials", "fail credentials ~0"))
+            # ... or that are the right ones plus something a lenient constructor might strip: trailing / leading NUL (a C string, a
+            # zero-padded field), line ends, DEL, a non-breaking space — every one is a refused credential, through every constructor
+            for pad in ("\0", "\0\0\0", "\n", "\r\n", "\t", "\x7f", "\u00a0"):
+                for uc, pc in ((us, ps + pad), (us + pad, ps), (us, pad + ps), (us, (ps + pad * 16)[:16])):
+                    cs.append(Case(login_line(us, ps, uc, pc, 10 * ctor, salt, b, a, chal), "padded-credentials", "fail credentials ~0"))
             cs.append(Case(login_line(us, ps, us.upper(), ps.upper(), 10 * ctor + 1, salt, b, a, chal), "client-constructor-%d-accepts" % ctor, None))
     return cs
 
